@@ -220,7 +220,7 @@ Theorem tup_decode_total bs :
   t_stat o <> TSFuel /\ t_iter o <= nlen bs /\ t_alloc o <= nlen bs /\ (length (t_rest o) <= length bs)%nat.
 Proof.
   unfold tup_decode, tup_decode_gen.
-  pose proof (skip_to_fuel (fuel_for bs) tMAP 0 false bs (fuel_for_ok bs)) as H.
+  pose proof (skip_to_fuel (fuel_for bs) tMAP 0 true bs (fuel_for_ok bs)) as H.
   assert (Herr : t_stat t_err <> TSFuel /\ t_iter t_err <= nlen bs /\ t_alloc t_err <= nlen bs /\ (length (t_rest t_err) <= length bs)%nat)
     by (cbn; repeat split; try discriminate; unfold nlen; lia).
   assert (Hgo : forall r, (length r <= length bs)%nat ->
@@ -229,7 +229,7 @@ Proof.
   { intros r Hr. pose proof (read_count_len_ok r) as Hc. destruct (read_count r) as [n r1|r1]; [|exact Herr].
     pose proof (dec_loop_good true (S (length r1)) n r1 ltac:(lia)) as Hl. cbv zeta in *. destruct Hl as (A & B & C & D).
     unfold nlen in *. repeat split; [assumption|lia|lia|lia]. }
-  destruct (skip_to (fuel_for bs) tMAP 0 false bs) as [ty r|r| |]; cbn [seek_good] in H; try tauto.
+  destruct (skip_to (fuel_for bs) tMAP 0 true bs) as [ty r|r| |]; cbn [seek_good] in H; try tauto.
   - apply Hgo. lia.
   - apply Hgo. lia.
 Qed.
@@ -756,13 +756,13 @@ Qed.
 
 Theorem tup_nothing_made_up bs kv : In kv (t_ins (tup_decode bs)) -> lies_in kv bs.
 Proof.
-  unfold tup_decode, tup_decode_gen. pose proof (skip_to_suffix (fuel_for bs) tMAP 0 false bs) as H.
+  unfold tup_decode, tup_decode_gen. pose proof (skip_to_suffix (fuel_for bs) tMAP 0 true bs) as H.
   assert (Hgo : forall r, suffix r bs ->
      In kv (t_ins (match read_count r with CErr _ => t_err | COk n r1 => dec_loop true true (S (length r1)) n r1 end)) -> lies_in kv bs).
   { intros r Hr. pose proof (suffix_read_count r) as Hc. destruct (read_count r) as [n r1|r1]; [|cbn; tauto].
     intros Hin. apply dec_loop_pieces in Hin. destruct Hin as (x & y & z & E).
     destruct (suffix_trans _ _ _ Hc Hr) as [w ->]. exists (w ++ x), y, z. rewrite E. now rewrite <- app_assoc. }
-  destruct (skip_to (fuel_for bs) tMAP 0 false bs) as [ty r|r| |]; try (cbn; tauto); apply Hgo; exact H.
+  destruct (skip_to (fuel_for bs) tMAP 0 true bs) as [ty r|r| |]; try (cbn; tauto); apply Hgo; exact H.
 Qed.
 Print Assumptions tup_nothing_made_up.
 
@@ -773,9 +773,7 @@ Theorem tup_mistyped_map ty rest : ty < 16 -> ty <> tMAP -> t_stat (tup_decode (
 Proof.
   intros Hty Hne. unfold tup_decode, tup_decode_gen, skip_to. rewrite fuel_for_S.
   destruct (ty =? tSE) eqn:Ese.
-  - assert (ty = tSE) as -> by lia. cbn [skip_to_no_check]. rewrite read_head2_head by (first [reflexivity | lia]).
-    change ((tSE =? tSE) || (0 <? 0)) with true. cbv iota. change (negb (0 <? 15)) with false. unfold unread. cbn [andb].
-    unfold read_count. rewrite read_head_head by (first [reflexivity | lia]). reflexivity.
+  - assert (ty = tSE) as -> by lia. cbn [skip_to_no_check]. rewrite read_head2_head by (first [reflexivity | lia]). reflexivity.
   - rewrite seek_first by (first [assumption | reflexivity]). destruct (ty =? tMAP) eqn:E; [lia|reflexivity].
 Qed.
 (* the key of an entry: anything but a string at tag 0 *)
@@ -865,3 +863,25 @@ Proof. vm_compute. split; reflexivity. Qed.
 Example tup_nothing_made_up_ex :   (* an input that is no encoder's output: tag-0 junk between key and value, trailing bytes *)
   t_ins (tup_decode [8; 0; 1; 6; 1; 97; 0; 7; 12; 29; 0; 0; 2; 120; 121; 99]) = [([97], [120; 121])].
 Proof. vm_compute. reflexivity. Qed.
+
+(* ================= the attribute map is mandatory (fa80196) ================= *)
+(* Decode succeeds only on an input whose first field is a MAP at tag 0 *)
+Theorem tup_strict_map bs : t_stat (tup_decode bs) = TSOk -> exists r two, read_head2 bs = Some (tMAP, 0, r, two).
+Proof.
+  unfold tup_decode, tup_decode_gen, skip_to. rewrite fuel_for_S. cbn [skip_to_no_check].
+  destruct (read_head2 bs) as [[[[ty tg] r] two]|] eqn:E; [|cbn; discriminate].
+  destruct ((ty =? tSE) || (0 <? tg)) eqn:E1; [cbn; discriminate|].
+  destruct (tg =? 0) eqn:E2; [|lia].
+  destruct (ty =? tMAP) eqn:E3; [|cbn; discriminate].
+  intros _. assert (ty = tMAP) as -> by lia. assert (tg = 0) as -> by lia. now exists r, two.
+Qed.
+Print Assumptions tup_strict_map.
+(* false of the decoder before fa80196: the lookup's result was ignored, and after a two-byte head with a small
+   tag SkipTo steps back one byte only - the tag byte was then read as the head of the count. This input has no
+   field at tag 0 (a MAP at tag 2 in a two-byte head) and decoded to {"a": "x"} *)
+Example optional_map_reinterprets :
+  let bs := [248; 2; 0; 0; 0; 1; 6; 1; 97; 29; 0; 0; 1; 120] in
+  read_head2 bs = Some (tMAP, 2, [0; 0; 0; 1; 6; 1; 97; 29; 0; 0; 1; 120], true) /\
+  t_stat (tup_decode_5664fef bs) = TSOk /\ t_ins (tup_decode_5664fef bs) = [([97], [120])] /\
+  t_stat (tup_decode bs) = TSErr.
+Proof. vm_compute. repeat split. Qed.
